@@ -46,6 +46,9 @@ class FunSpec:
         notes="",
         ghost=None,
         lemmas=(),
+        until=None,
+        callers=None,
+        at_call=None,
     ):
         self.target = target
         self.module, self.qualname = target.split(":")
@@ -67,6 +70,19 @@ class FunSpec:
         self.notes = notes
         self.ghost = dict(ghost or {})
         self.lemmas = list(lemmas)
+        # statement contract on a PREFIX of the body: the contract covers the statements before the first top-level
+        # statement whose source starts with this text; the rest of the body is dropped (and said so in the evidence)
+        self.until = until
+        # statement assertions: {source text of a call in the body: [clauses]} - proved in the state just before that call
+        # (locals visible, old() = function entry); a key that matches no call of the body is an error
+        self.at_call = {k: list(v) for k, v in (at_call or {}).items()}
+        # what CALLERS of a function with a prefix contract may rely on: an assumed (trusted) contract of the whole function
+        self.callers = None
+        if callers is not None:
+            kw = dict(callers)
+            kw.setdefault("types", types)
+            kw.setdefault("returns", returns)
+            self.callers = FunSpec(target, trusted=True, **kw)
 
 
 class Registry:
